@@ -237,7 +237,7 @@ func runC05(w *W) {
 				if d.J%2 == 1 {
 					ns = 999999999
 				}
-				tt := time.Date(d.Y, time.Month(d.M), d.D, t.h, t.m, t.s, ns, time.UTC)
+				tt := time.Date(d.Y, time.Month(d.M), d.D, t.h, t.m, t.s, ns, tzOf(d.J/2+t.h))
 				if tt.Year() == d.Y && int(tt.Month()) == d.M && tt.Day() == d.D {
 					var lt *calendar.Lunar
 					if msg, p := try(func() { lt = calendar.NewLunarFromDate(tt) }); p {
